@@ -1937,7 +1937,8 @@ func (s *SweepingProvider) batchReprovide(prefix bitstr.Key) {
 	// in the keystore are about to be reprovided; the others (ProvideOnce keys,
 	// which are never stored) must be sent along, or they would be dropped.
 	// Duplicates are harmless: the region key tries ignore them.
-	if extra := s.provideQueue.DequeueMatching(prefix); len(extra) > 0 {
+	extra := s.provideQueue.DequeueMatching(prefix)
+	if len(extra) > 0 {
 		keys = append(keys, extra...)
 	}
 	// Remove covered prefix from the reprovide queue, so since we are about the
@@ -1952,7 +1953,7 @@ func (s *SweepingProvider) batchReprovide(prefix bitstr.Key) {
 
 	regions = keyspace.AssignKeysToRegions(regions, keys)
 
-	if s.provideRegions(regions, addrInfo, true) {
+	if s.provideRegions(regions, addrInfo, true, extra...) {
 		s.persistSuccessfulReprovide(prefix)
 	} else {
 		s.logger.Warnf("failed to reprovide any region for prefix %s", prefix)
@@ -2050,7 +2051,7 @@ func (s *SweepingProvider) individualProvide(prefix bitstr.Key, keys []mh.Multih
 // provideRegions contains common logic to batchProvide() and batchReprovide().
 // It iterate over supplied regions, and allocates the regions provider records
 // to the appropriate DHT servers.
-func (s *SweepingProvider) provideRegions(regions []keyspace.Region, addrInfo peer.AddrInfo, reprovide bool) bool {
+func (s *SweepingProvider) provideRegions(regions []keyspace.Region, addrInfo peer.AddrInfo, reprovide bool, fromProvideQueue ...mh.Multihash) bool {
 	op := "provide"
 	if reprovide {
 		op = "reprovide"
@@ -2102,6 +2103,17 @@ func (s *SweepingProvider) provideRegions(regions []keyspace.Region, addrInfo pe
 			err = fmt.Errorf("cannot send provider records for region %s: %s", r.Prefix, err)
 			if reprovide {
 				s.failedReprovide(r.Prefix, err)
+				// Keys taken along from the provide queue go back there: the ones
+				// that are not in the keystore (ProvideOnce) would be lost otherwise.
+				var back []mh.Multihash
+				for _, h := range fromProvideQueue {
+					if keyspace.IsPrefix(r.Prefix, keyspace.MhToBit256(h)) {
+						back = append(back, h)
+					}
+				}
+				if len(back) > 0 {
+					s.provideQueue.Enqueue(r.Prefix, back...)
+				}
 			} else { // provide operation
 				s.failedProvide(r.Prefix, keys, err)
 			}
